@@ -247,6 +247,32 @@ func run(c Case) vt.Verdict {
 	if !bytes.Equal(dec, x) {
 		return vt.Bad("pipeline.Remove(Apply(x)) != x (len %d vs %d, first diff %d)", len(dec), len(x), firstDiff(dec, x))
 	}
+	// (a1) the same filters configured by another route: the first filter is put in front of the others afterwards
+	// (AddFilterAtStart, what the dataset options do with shuffle), with the pipeline message encoded in between - the pipeline
+	// and its message describe the filters that are configured, whatever the order of configuration calls
+	if len(c.Filters) >= 1 {
+		alt := writer.NewFilterPipeline()
+		for _, f := range c.Filters[1:] {
+			alt.AddFilter(mk(f))
+		}
+		if _, err := alt.EncodePipelineMessage(); err != nil && len(c.Filters) > 1 {
+			return vt.Bad("EncodePipelineMessage of the partially configured pipeline failed: %v", err)
+		}
+		alt.AddFilterAtStart(mk(c.Filters[0]))
+		if alt.Count() != len(c.Filters) {
+			return vt.Bad("pipeline configured with AddFilter x %d + AddFilterAtStart holds %d filters", len(c.Filters)-1, alt.Count())
+		}
+		aenc, aerr := alt.Apply(append([]byte{}, x...))
+		if aerr != nil || !bytes.Equal(aenc, enc) {
+			return vt.Bad("pipeline configured with AddFilterAtStart encodes differently from the one configured in order (err %v, first diff %d)", aerr, firstDiff(aenc, enc))
+		}
+		m1, e1 := pipe.EncodePipelineMessage()
+		m2, e2 := alt.EncodePipelineMessage()
+		if (e1 == nil) != (e2 == nil) || !bytes.Equal(m1, m2) {
+			return vt.Bad("pipeline message of the pipeline configured with AddFilterAtStart differs from the one configured in order (errs %v / %v, first diff %d)", e1, e2, firstDiff(m1, m2))
+		}
+	}
+
 	// (a2) a pipeline is used for chunk after chunk: encoding a second payload must not disturb the bytes returned for the
 	// first one, and decoding a second chunk must not disturb the first decoded payload
 	if v := func() *vt.Verdict {
